@@ -411,6 +411,9 @@ var c14ConcCheck = register("C14", "c14.concurrent", func(c *concCallCase) error
 	for pi := range r.Report.Results {
 		for gi := range r.Report.Results[pi] {
 			for oi, o := range r.Report.Results[pi][gi] {
+				if o.Panic == "" && strings.Contains(o.Unstable, "panic:") {
+					o.Panic = o.Unstable // a repetition of the call panicked
+				}
 				if o.Panic != "" {
 					return failf("C14 panic concurrent "+c.Plan.Phases[pi].Goroutines[gi][oi].Kind, "%s panicked while other goroutines were calling the API: %s", opString(&c.Plan.Phases[pi].Goroutines[gi][oi]), o.Panic)
 				}
@@ -476,6 +479,16 @@ func TestC14_Concurrent(t *testing.T) {
 				}
 				gs[g] = append(gs[g], o)
 			}
+		}
+		if rapid.IntRange(0, 3).Draw(rt, "generation-hammer") == 0 {
+			// every goroutine generates from the default source, several hundred calls back to back, sizes mixed
+			for g := range gs {
+				gs[g] = nil
+				for _, n := range []int{12, 24, 18, 15, 21} {
+					gs[g] = append(gs[g], op{Kind: "new", Lang: int64(implLang[ref.Lang((g+n)%int(ref.NumLangs))]), N: int64(n), Repeat: 150})
+				}
+			}
+			cov.Class("generation-hammer")
 		}
 		c := &concCallCase{Plan: plan{GOMAXPROCS: rapid.SampledFrom([]int{0, 0, 2, 4, 16}).Draw(rt, "gomaxprocs"), Phases: []phase{{Goroutines: gs}}}}
 		cov.Eval(1)
